@@ -1,6 +1,7 @@
 """C14: stage typestate of CeiloChunk (facts S, I, G, N, L; see DESIGN.md section 4, C14)."""
 from __future__ import annotations
 
+from sa.anchors import is_helper
 from sa import terms as T
 from sa.core import AnalysisError
 from sa.symexec import Executor
@@ -38,7 +39,7 @@ def stage_methods(ctx, rule):
 
 
 def run_inlined(ctx, m, binding):
-    ex = Executor(ctx.project, inline=lambda q, d: q.startswith('ampycloud.data.'), max_depth=7)
+    ex = Executor(ctx.project, inline=lambda q, d: q.startswith('ampycloud.data.') or is_helper(ctx.project, q), max_depth=7)
     s = ex.run(m, binding)
     ctx.analysed['events'] += len(s.events)
     return ex, s
